@@ -1,6 +1,6 @@
 (* The rendered lease listing parses, with the RFC 8259 parser of Model/Json.v,
    to exactly the rows it was rendered from. *)
-From Coq Require Import String Ascii.
+From Coq Require Import String Ascii Permutation Sorted.
 From Erbium Require Import Lib.Base Model.Json Model.Http Model.EntryC20 Proofs.Http.
 Open Scope N_scope.
 
@@ -392,4 +392,66 @@ Proof.
     cbn [parse_value skip_ws is_ws N.eqb Pos.eqb orb].
     rewrite (parse_rows rs r g (125 :: 10 :: []) Hw). reflexivity.
   - cbn. rewrite entries_rows. reflexivity.
+Qed.
+
+
+(* ---- the served listing: sorted by address, one entry per stored lease ---------------------- *)
+Lemma insert_by_ip_perm x l : Permutation (insert_by_ip x l) (x :: l).
+Proof.
+  induction l as [|y r IH]; cbn [insert_by_ip]; [apply Permutation_refl|].
+  destruct (l_ip x <=? l_ip y); [apply Permutation_refl|].
+  eapply Permutation_trans; [apply perm_skip, IH | apply perm_swap].
+Qed.
+
+Lemma sort_by_ip_perm l : Permutation (sort_by_ip l) l.
+Proof.
+  induction l as [|x r IH]; cbn [sort_by_ip fold_right]; [apply Permutation_refl|].
+  eapply Permutation_trans; [apply insert_by_ip_perm | apply perm_skip, IH].
+Qed.
+
+Lemma forallb_perm {A} (f : A -> bool) l l' : Permutation l l' -> forallb f l = forallb f l'.
+Proof.
+  induction 1 as [|x l l' _ IH|x y l|l l' l'' _ IH1 _ IH2]; cbn [forallb].
+  - reflexivity.
+  - now rewrite IH.
+  - destruct (f x), (f y); reflexivity.
+  - now rewrite IH1.
+Qed.
+
+Definition ip_le (a b : lease) : Prop := l_ip a <= l_ip b.
+
+Lemma insert_by_ip_sorted x l : Sorted ip_le l -> Sorted ip_le (insert_by_ip x l).
+Proof.
+  induction 1 as [|y r Hs IH Hh]; cbn [insert_by_ip]; [repeat constructor|].
+  destruct (l_ip x <=? l_ip y) eqn:E.
+  - apply N.leb_le in E. constructor; [constructor; assumption|]. constructor. exact E.
+  - apply N.leb_gt in E. constructor; [exact IH|].
+    destruct r as [|z r']; cbn [insert_by_ip].
+    + constructor. unfold ip_le. apply N.lt_le_incl, E.
+    + destruct (l_ip x <=? l_ip z) eqn:E2; constructor; unfold ip_le.
+      * apply N.lt_le_incl, E.
+      * inversion Hh; subst. assumption.
+Qed.
+
+Lemma sort_by_ip_sorted l : Sorted ip_le (sort_by_ip l).
+Proof.
+  induction l as [|x r IH]; cbn [sort_by_ip fold_right]; [constructor|].
+  apply insert_by_ip_sorted, IH.
+Qed.
+
+Lemma served_listing rows :
+  forallb wf_lease rows = true ->
+  exists j es, json_parse (serve_listing rows) = Some j /\ entries j = Some es /\
+               Permutation es (map spec_entry rows) /\
+               es = map spec_entry (sort_by_ip rows) /\ Sorted ip_le (sort_by_ip rows).
+Proof.
+  intros Hwf.
+  assert (Hwf' : forallb wf_lease (sort_by_ip rows) = true)
+    by (rewrite (forallb_perm wf_lease _ _ (sort_by_ip_perm rows)); exact Hwf).
+  destruct (listing_is_json _ Hwf') as [j [Hp He]].
+  exists j, (map spec_entry (sort_by_ip rows)). repeat split.
+  - exact Hp.
+  - exact He.
+  - apply Permutation_map, sort_by_ip_perm.
+  - apply sort_by_ip_sorted.
 Qed.
